@@ -257,6 +257,13 @@ func runC14(c *fw.Ctx) {
 			c.Case(func(k *fw.K) {
 				k.Key("colliding/%d/%d", gi, rev)
 				k.Count("colliding_shape_group_cases", 1)
+				// in every other case ONE object per layer configuration serves all shapes of the group (an inference service fed batches of
+				// changing geometry): what the layer derived from an earlier input's shape must not be applied to the next input
+				type fwdT = interface {
+					Forward(...tensor.Tensor) (tensor.Tensor, error)
+				}
+				shared := map[string]fwdT{}
+				oneObject := (gi+rev)%2 == 0
 				for pass := 0; pass < 2; pass++ {
 					for q := range group {
 						shape := group[q]
@@ -264,11 +271,15 @@ func runC14(c *fw.Ctx) {
 							shape = group[len(group)-1-q]
 						}
 						for _, sp := range actSpecs(len(shape)) {
-							obj, err := sp.mk()
-							if err != nil {
+							obj, err := fwdT(nil), error(nil)
+							if oneObject && shared[sp.name] != nil {
+								obj = shared[sp.name]
+								k.Count("forward_calls_on_an_object_that_served_another_shape", 1)
+							} else if obj, err = sp.mk(); err != nil {
 								k.Failf("%s: constructor failed: %v", sp.name, err)
 								return
 							}
+							shared[sp.name] = obj
 							x, cname := actValues(k, 0, shape, sp.in.Dim)
 							want, _ := ref.Apply(sp.in, []*ref.T{x})
 							var y tensor.Tensor
